@@ -367,7 +367,13 @@ class ConvexPolyhedron(GeoBody):
 
     def __eq__(self, other):
         if isinstance(other, ConvexPolyhedron):
-            return hash(self) == hash(other)
+            # A convex polyhedron is determined by its vertices. Comparing
+            # the hashes is not enough: different vertices can have the
+            # same hash (in CPython hash(-1.0) == hash(-2.0))
+            return len(self.point_set) == len(other.point_set) and all(
+                any(point == other_point for other_point in other.point_set)
+                for point in self.point_set
+            )
         else:
             return False
 
